@@ -222,7 +222,7 @@ def run(ctx):
 
 
 CLAIM = {
-    "text": "Decides the bundle protocol: typestate of the bundle-open flag with guard dominance for create/read/save/drop, the collision check "
+    "text": "Decides the bundle protocol: typestate of the bundle-open flag with guard dominance for create/read/save/drop (a rejected create touches nothing of the open bundle), the collision check "
             "dominating the recording of a reading, empty save / drop emitting nothing, checkpoint and configure rejected inside a bundle, "
             "descriptor-before-event on the uncached branch, and the event being composed from exactly this bundle's cached readings. "
             "Equality of data values is not decided.",
